@@ -81,7 +81,9 @@ def _f8_ranges(value):
             text = str(r)
         except Exception:  # noqa: BLE001
             continue
-        if (r.max is not None and r.max.post is not None and not r.include_max
+        # (a post-release proper: with a dev / pre segment on top the pinned rendering does not apply - the unchanged
+        # tree never shortens such a bound, so a `~=` there is a different defect and must be reported)
+        if (r.max is not None and r.max.post is not None and r.max.dev is None and r.max.pre is None and not r.include_max
                 and getattr(r, "simplified", None) is None and text.startswith("~=")):
             out.append(r)
     return out
